@@ -422,7 +422,7 @@ def run(ck, model_ok):
     quick = ck.tier == 'quick'
     m = Model()
     recs = []
-    n = 90 if quick else 3000
+    n = 90 if quick else 1200
     batch = 30
     for si in range(n):
         rng = random.Random(f'{ck.seed}-{ck.tier}-{si}')       # one stream per scenario: replayable in isolation
